@@ -261,10 +261,31 @@ def sweep():
     out = [_try([it]) for it in _STRINGS]
     out += [_try([a, ('"b c"', "b c")]) for a in _STRINGS]
     out += [_try_num([it]) for it in _NUMBERS]
+    out.append(_try_idents())
     return out
 
 
+def _try_idents():
+    """quoted identifiers that end in a backslash next to identifiers with spaces: the (formatted) SQL must name the same columns"""
+    import replaylib
+    prql = "from t\nselect {id, `a\\`, `b c`, `d-e`}\nsort id\n"
+    want = [(1, 10, 100, 7), (2, 20, 200, 8)]
+    rec = {"obligation": "literals.FM1", "input": prql, "expected": repr(want), "replay_kind": "idents", "items": []}
+    ok, sql = replaylib.compile_prql(prql, "sql.sqlite")
+    if not ok:
+        rec.update(failing="PANIC" in sql, observed=sql[:300])
+        return rec
+    ok2, rows = replaylib.sqlite_rows('create table t(id integer, "a\\" integer, "b c" integer, "d-e" integer); insert into t values (1, 10, 100, 7), (2, 20, 200, 8);', sql)
+    got = [tuple(r) for r in rows] if ok2 else rows
+    rec.update(failing=got != want, observed=repr(got)[:300], sql=sql)
+    return rec
+
+
 def replay(failure):
+    if failure.get("obligation", "").split(".")[-1].startswith("FM"):
+        r = _try_idents()
+        if r["failing"]:
+            return r
     if failure.get("obligation", "").split(".")[-1].startswith("LN"):
         for it in _NUMBERS:
             r = _try_num([it])
@@ -278,6 +299,8 @@ def replay(failure):
 
 
 def rerun(doc):
+    if doc.get("replay_kind") == "idents":
+        return _try_idents()
     if doc.get("replay_kind") == "numbers":
         return _try_num([tuple(x) for x in doc["items"]])
     return _try([tuple(x) for x in doc["items"]])
